@@ -15,6 +15,7 @@ import XV.Driver.Ledger
 import XV.Driver.Dom
 import XV.Driver.XmlWf
 import XV.Driver.Facet
+import XV.Driver.Ser
 open XV.Driver
 
 def main (args : List String) : IO UInt32 := do
@@ -50,5 +51,6 @@ def main (args : List String) : IO UInt32 := do
                    return 0
   | ["facet"] => lineLoop stdin stdout XV.Driver.Facet.handle; return 0
   | ["facetspec"] => lineLoop stdin stdout XV.Driver.Facet.handleSpec; return 0
+  | ["ser"] => lineLoop stdin stdout XV.Driver.Ser.handle; return 0
   | ["utf8spec"] => lineLoop stdin stdout XV.Driver.Utf8.handleSpec; return 0
   | _ => IO.eprintln "usage: xvdriver <area>"; return 2
